@@ -6,7 +6,9 @@ from harness.util import shrink_list
 RULE = ("random operation sequences on ParameterTable(keys=True) and RowCollector (list mode), all grid "
         "sizes n<=N x ncols<=8 x 4 modes exhaustively, random item lists for DataCombination; non-trivial = "
         "table sequence with a delete or overwrite / collector sequence with a sort or dict row / grid with "
-        "n not a multiple of ncols / combination of >=2 lists with >=2 items; distinct = canonical JSON of the input")
+        "n not a multiple of ncols / combination of >=2 lists with >=2 items; distinct = canonical JSON of the input; "
+        "plus rows given to the RowCollector constructor / appended with cells of mixed kinds (ints, floats, strings, "
+        "None, tuples, lists, dicts as opaque cell objects), table keys that are tuples, floats or None")
 ASSUMPTIONS = [
     "keys/column names do not collide with the classes' own attribute names",
     "columns are homogeneous ints; np.argsort is a parameter: the index list it returned is fed to the model "
@@ -259,7 +261,8 @@ def impl_rc(names, ops):
     return outs, mops
 
 
-CELLS = [1, 2, 3, 2 ** 60 + 1, 2 ** 60 + 2, 1.5, 2.5, 0.1, "neutron", "3", "1.5", True, None]
+CELLS = [1, 2, 3, 2 ** 60 + 1, 2 ** 60 + 2, 1.5, 2.5, 0.1, "neutron", "3", "1.5", True, None,
+         (1, 2), (0.0, 0.0, -9.8), (1, 0, 0), [1, 2], [], (), {"k": 1}, ("a", 1.5)]   # vector / container cells
 
 
 def ctor_stream(ctx, count):
